@@ -105,6 +105,8 @@ class JobRunner:
             raise
         except Exception as e:
             err = e
+        finally:
+            ctx.cleanup()
         return ctx, err
 
     def run(self):
@@ -285,7 +287,10 @@ def replay_known(prop, known):
         me = ModelEval(values=k['witness']['values'])
         ctx = Ctx('native', me=me)
         try:
-            ob.scenario(ctx, k['witness']['cfg'])
+            try:
+                ob.scenario(ctx, k['witness']['cfg'])
+            finally:
+                ctx.cleanup()
         except Exception as e:
             lines.append('NOTE: witness of %s no longer runs (%r); exclusion not applied' % (k['id'], e))
             continue
